@@ -93,7 +93,7 @@ theorem mem_allW_rearmWaiter {db : DB} {w x : Waiter} (h : x ∈ allW (rearmWait
   · exact Or.inl (mem_allW_of_keys_eq rfl h1)
   · exact Or.inr h1
 
-theorem mem_allW_fireTimeout {db : DB} {w x : Waiter} (h : x ∈ allW (fireTimeout db w).1) : x ∈ allW db := by
+theorem mem_allW_fireTimeout {db : DB} {key : Nat} {w x : Waiter} (h : x ∈ allW (fireTimeout db key w).1) : x ∈ allW db := by
   unfold fireTimeout at h
   rcases mem_allW_setKey h with h1 | h1
   · exact mem_allW_of_keys_eq rfl h1
@@ -158,7 +158,7 @@ theorem mem_allW_updateHoldIn {db : DB} {h h' : Hold} {x : Waiter} (hx : x ∈ a
 
 theorem clock_rearmHold (db : DB) (h : Hold) : clock (rearmHold db h) = clock db := rfl
 
-theorem clock_fireTimeout (db : DB) (w : Waiter) : clock (fireTimeout db w).1 = clock db := rfl
+theorem clock_fireTimeout (db : DB) (key : Nat) (w : Waiter) : clock (fireTimeout db key w).1 = clock db := rfl
 
 theorem clock_fireExpire (db : DB) (key : Nat) (h : Hold) : clock (fireExpire db key h).1 = clock db := by
   unfold fireExpire; simp only [clock_setKey, clock_wake]; rfl
@@ -184,7 +184,9 @@ theorem timeoutStep_WInv (acc : DB × List Waiter) (w : Waiter) (h : WInv acc.1)
 
 theorem fireTimeoutStep_WInv (acc : DB × List Reply) (w : Waiter) (h : WInv acc.1) : WInv (fireTimeoutStep acc w).1 := by
   unfold fireTimeoutStep
-  exact h.of_clock (clock_fireTimeout _ _) (fun x hx => mem_allW_fireTimeout hx)
+  split
+  · exact h.of_clock (clock_fireTimeout _ _ _) (fun x hx => mem_allW_fireTimeout hx)
+  · exact h
 
 theorem expireStep_WInv (acc : DB × List Hold) (hd : Hold) (h : WInv acc.1) : WInv (expireStep acc hd).1 := by
   unfold expireStep
@@ -222,7 +224,7 @@ theorem clock_foldl {α β} (f : DB × β → α → DB × β) (hf : ∀ acc a, 
 
 theorem clock_sweepTimeout (db : DB) (c : Nat) : clock (sweepTimeout db c).1 = clock db := by
   unfold sweepTimeout timeoutPass1
-  rw [clock_foldl _ (fun acc a => by unfold fireTimeoutStep; exact clock_fireTimeout _ _)]
+  rw [clock_foldl _ (fun acc a => by unfold fireTimeoutStep; split; exact clock_fireTimeout _ _ _; rfl)]
   exact clock_foldl _ (fun acc a => by unfold timeoutStep; split <;> rfl) _ _
 
 theorem opTick_WInv (db : DB) (h : WInv db) : WInv (opTick db).1 := by
